@@ -44,6 +44,8 @@ def wspec_desc(rng, shape, rate, bs, **kw):
          'narr': rng.choice([0, 1, 2, 3, 5]), 'cubeseed': rng.randrange(1 << 20),
          'valkind': rng.choice(['smooth', 'smooth', 'smooth', 'noise', 'ramp', 'neg', 'huge', 'tiny'])}
     d.update(kw)
+    if tuple(d['version']) <= (0, 1, 6) and len(shape) == 3:
+        d['dt'] = max(1000, d['dt'] // 1000 * 1000)    # files up to 0.1.6 can only express whole milliseconds
     return d
 
 
